@@ -233,16 +233,17 @@ def heapUp (byFee : Bool) : Nat → List Item → Nat → List Item
     if i = j || !lessAt byFee q j i then q
     else heapUp byFee fuel (swap q i j) i
 
+/-- the smaller (per `Less`) of the children `j1`, `j1 + 1` of a node, within the first `n` elements -/
+def pickChild (byFee : Bool) (q : List Item) (j1 n : Nat) : Nat :=
+  if j1 + 1 < n && lessAt byFee q (j1 + 1) j1 then j1 + 1 else j1
+
 /-- `heap.down` over the first `n` elements. -/
 def heapDown (byFee : Bool) : Nat → List Item → Nat → Nat → List Item
   | 0, q, _, _ => q
   | fuel + 1, q, i, n =>
-    let j1 := 2 * i + 1
-    if j1 ≥ n then q
-    else
-      let j := if j1 + 1 < n && lessAt byFee q (j1 + 1) j1 then j1 + 1 else j1
-      if !lessAt byFee q j i then q
-      else heapDown byFee fuel (swap q i j) j n
+    if 2 * i + 1 ≥ n then q
+    else if !lessAt byFee q (pickChild byFee q (2 * i + 1) n) i then q
+    else heapDown byFee fuel (swap q i (pickChild byFee q (2 * i + 1) n)) (pickChild byFee q (2 * i + 1) n) n
 
 /-- `heap.Init`. -/
 def heapInit (byFee : Bool) (q : List Item) : List Item :=
@@ -418,7 +419,7 @@ structure Template where
   sigs : List Nat
   cbValue : Int
   commitment : Bool
-  deriving Repr
+  deriving Repr, DecidableEq
 
 def initWeight (e : Env) : Nat := (BLOCK_HEADER_OVERHEAD * WITNESS_SCALE + e.cbWeight) % U32
 
